@@ -155,7 +155,8 @@ def build(ex):
         conds = [cnd if isinstance(cnd, z3.ExprRef) else z3.BoolVal(bool(cnd)) for cnd in conds]
         return z3.And(*conds)
     L2 = childrun.process_run_contract(ex, 'L2')
-    return [(L1, None), (L2, None), (L4, None), (L3, None), (L4b, None), (L5, None)]
+    L2i = childrun.process_run_injected(ex, 'L2i', 'C16')
+    return [(L1, None), (L2, None), (L2i, None), (L4, None), (L3, None), (L4b, None), (L5, None)]
 
 
 def replay(ob, repo):
